@@ -93,6 +93,11 @@ CHECKS["C03"] = {
     "note": COMMON_NOTE + "Modelled, not verified: atomicity of each manager-queue/event/lock operation, sequential consistency of the two progress flags (GIL), the replace queue as an atomic FIFO, fork = copy of the Process object, scheduling-point granularity. Out of reach: OS starvation, wall-clock timeouts, a killed manager, fork-in-thread hazards. D19 (exit blocks on its stop orders for an int work-queue bound below the worker count after unreplaced retirements) is a recorded known finding.",
     "technique": "Lean 4 proof (safety + history invariant over the interleaving model) + step-by-step correspondence of multi-call histories under a controlled scheduler",
 }
+CHECKS["C14"] = {
+    "text": "Lean (interleaving model of TextFileStorage: any number of processes with their own copy of the object, arbitrary scripts of store/read/len/is_contiguous/iterate, ~55 program counters, re-entrant lock, files as lists of writes; all schedules): published => durable (every index entry points at a complete line of an existing file) and stable (an entry and its line never change); a finished read of g raised IndexError or returned exactly the complete line of a store of g that succeeded — never empty, partial or another id's; at most one store of an id succeeds, the others raise ValueError; whenever nobody is inside a critical section len() is the number of stored ids and _waiting_for the least unstored id, and is_contiguous is true exactly when the stored ids are 0..len-1; an iteration yields every stored text in id order skipping gaps; flush() removes every listed file and leaves the initial state.",
+    "note": COMMON_NOTE + "Modelled, not verified: atomicity of each manager-list / Value / RLock operation; a write is visible at once (and print() is two writes) in the model — the harness additionally runs half of its schedules with data invisible until flush(); POSIX append/seek/readline; processes open their own handles; texts are single-line. flush() requires every other process to be done (documented). D20 (flush did not reset the calling object) was repaired.",
+    "technique": "Lean 4 proof (layered inductive invariants: lock discipline, durability, history, counters, iteration) + step-by-step correspondence under a controlled scheduler",
+}
 NOT_APPLICABLE = []
 NOTES = ("Checks are added as their models, theorems and correspondence harnesses are completed; properties not yet listed are "
          "work in progress (see DESIGN.md), not 'not applicable'.")
